@@ -85,6 +85,18 @@ fn snap_of(w: &SimWorld, entity: Entity) -> Snap {
     }
 }
 
+/// The crowd of identically configured plain animated entities: (state, position, component) each.
+fn crowd_snap(w: &SimWorld) -> Vec<(AnimationState, Duration, Target)> {
+    w.crowd
+        .iter()
+        .map(|x| {
+            let e = w.app.world.entity(*x);
+            let an = e.get::<Animator<Target>>().expect("crowd animator");
+            (an.state(), an.timeline_position, e.get::<Target>().expect("crowd target").clone())
+        })
+        .collect()
+}
+
 /// The lone animator of the second component type: (state, position, component value if any).
 type LoneSnap = (AnimationState, Duration, Option<f32>);
 
@@ -353,6 +365,7 @@ fn execute(scn: &BScn, property: &str) -> RunOutcome {
         })
     };
     let mut extra_twin: Option<Twin> = cfg.extra_entity.map(|(tl, _)| Twin::new(cfg, tl, None));
+    let mut crowd_twin: Option<Twin> = None;
     let mut pending: Option<Pending> = None;
     let mut user_changed_since_end = false;
     let mut unacted_frames = 0usize;
@@ -717,6 +730,7 @@ fn execute(scn: &BScn, property: &str) -> RunOutcome {
         let lone_before = lone_snap(&w);
         let late_before = late_snap(&w);
         let before = snap(&w);
+        let crowd_before = crowd_snap(&w);
         if user_set_key && before.key != key_before_ops {
             user_changed_key = true;
         }
@@ -751,6 +765,15 @@ fn execute(scn: &BScn, property: &str) -> RunOutcome {
         }
         let after = snap(&w);
         hash_snap(&mut h, &after);
+        let crowd_after = crowd_snap(&w);
+        for (st, p, c) in &crowd_after {
+            h.u32(rank(*st) as u32 + 400);
+            h.u64(p.as_nanos() as u64);
+            h.f32(c.a);
+            h.f32(c.b);
+            h.u32(c.n as u32);
+            h.u32(c.k as u32);
+        }
         let lone_after = lone_snap(&w);
         let late_after = late_snap(&w);
         if let Some((st, p, x)) = lone_after {
@@ -1245,6 +1268,46 @@ fn execute(scn: &BScn, property: &str) -> RunOutcome {
                     }
                 }
             }
+            // the crowd: more animators of one type than a handful. Nobody touches them, so each is
+            // a plain animator from frame 0 on: position conserved until Ended, one event per state
+            // change, a Playing component on its timeline - and all of them alike.
+            if let (Some((tl, _)), false) = (cfg.crowd, w.crowd.is_empty()) {
+                let m = &cfg.tls[tl];
+                let tw = crowd_twin.get_or_insert_with(|| Twin::new(cfg, tl, None));
+                out.count("probe.crowd_frame");
+                for (i, x) in w.crowd.iter().enumerate() {
+                    let (sb, pb, cb) = &crowd_before[i];
+                    let (sa, pa, ca) = &crowd_after[i];
+                    let theirs: Vec<AnimationState> = events.iter().filter(|(e, _)| e == x).map(|(_, s)| *s).collect();
+                    let exp: Vec<AnimationState> = if sa != sb { vec![*sa] } else { vec![] };
+                    if theirs != exp {
+                        fail!("C18", "events-do-not-match-state-changes", "frame {fi}: crowd entity {i} of {} went {sb:?} -> {sa:?}; events sent for it: {theirs:?}, expected {exp:?}", w.crowd.len());
+                    }
+                    if *sa != AnimationState::Ended && *pa != *pb + delta {
+                        fail!("C18", "position-not-conserved", "frame {fi}: crowd entity {i} of {}: {pb:?} + {delta:?} != {pa:?} in state {sa:?}", w.crowd.len());
+                    }
+                    if *sa == AnimationState::None || rank(*sa) < rank(*sb) {
+                        fail!("C18", "state-went-backwards", "frame {fi}: crowd entity {i} of {}: {sb:?} -> {sa:?}", w.crowd.len());
+                    }
+                    if i == 0 {
+                        if *sa == AnimationState::Playing {
+                            let c1 = tw.eval(cb, *pb);
+                            let c2 = tw.eval(cb, *pa);
+                            if !keyed_equal(m, ca, &c1) && !keyed_equal(m, ca, &c2) {
+                                fail!("C18", "playing-component-stale", "frame {fi}: crowd entity 0 Playing at {pa:?} but its component is {}; timeline gives {} / {}", tbrief(ca), tbrief(&c1), tbrief(&c2));
+                            }
+                        }
+                        if let Some(f) = unkeyed_changed(Some(m), cb, ca) {
+                            fail!("C18", "unanimated-field-written", "frame {fi}: crowd entity 0: field {f} changed although its timeline does not keyframe it");
+                        }
+                    } else {
+                        let (s0, p0, c0) = &crowd_after[0];
+                        if sa != s0 || pa != p0 || ca != c0 {
+                            fail!("C18", "identical-entities-diverge", "frame {fi}: crowd entity {i} of {} is {sa:?} at {pa:?} with {} while crowd entity 0 is {s0:?} at {p0:?} with {}", w.crowd.len(), tbrief(ca), tbrief(c0));
+                        }
+                    }
+                }
+            }
             let mine: Vec<AnimationState> = events.iter().filter(|(e, _)| *e == w.entity).map(|(_, s)| *s).collect();
             let mut expected: Vec<AnimationState> = Vec::new();
             if target_changed {
@@ -1267,7 +1330,7 @@ fn execute(scn: &BScn, property: &str) -> RunOutcome {
             if got_sorted != exp_sorted {
                 fail!("C18", "events-do-not-match-state-changes", "frame {fi}: state {state_base:?} -> {:?} (second animator {:?} -> {:?}); events sent: {mine:?}, expected {expected:?}", after.state, before.other.map(|o| o.0), after.other.map(|o| o.0));
             }
-            if cfg.orphan.is_none() && events.iter().any(|(e, _)| *e != w.entity && Some(*e) != w.extra && Some(*e) != w.mirror && Some(*e) != w.lone_other && Some(*e) != w.late_animator) {
+            if cfg.orphan.is_none() && events.iter().any(|(e, _)| *e != w.entity && Some(*e) != w.extra && Some(*e) != w.mirror && Some(*e) != w.lone_other && Some(*e) != w.late_animator && !w.crowd.contains(e)) {
                 fail!("C18", "event-for-wrong-entity", "frame {fi}: an event names an entity without an animator");
             }
             if target_changed && after.state == AnimationState::Ended {
